@@ -48,3 +48,27 @@ Proof.
   destruct q; try reflexivity.
   unfold api_make_query. destruct (make_query ts) as [[g0 ctr]| |]; cbn [bind]; reflexivity.
 Qed.
+
+(* ---- small accessors of the public API ---- *)
+
+(* goal.rs Goal::get_ground_term(index, ss): ONE binding step from the index-th term of a complex goal
+   (get_binding: panics on a term that is not a variable; terms[index]: panics out of range);
+   None for every other kind of goal *)
+Definition goal_get_ground_term (g : goal) (index : nat) (ss : subst) : res (option term) :=
+  match g with
+  | GCall (TComplex terms) =>
+      match nth_error terms index with
+      | Some t => get_binding t ss
+      | None => Panic
+      end
+  | _ => Ok None
+  end.
+
+(* operator.rs Operator::len and Operator::get_subgoal (goals[index]: panics out of range) *)
+Definition op_len (g : goal) : option N :=
+  match g with GOp _ gs => Some (N.of_nat (length gs)) | _ => None end.
+Definition op_get_subgoal (g : goal) (index : nat) : res (option goal) :=
+  match g with
+  | GOp _ gs => match nth_error gs index with Some x => Ok (Some x) | None => Panic end
+  | _ => Ok None
+  end.
